@@ -4,12 +4,13 @@ import Jp.Tie.PushBack
 import Jp.Tie.PopBack
 import Jp.Tie.Append
 import Jp.Tie.Clear
+import Jp.Tie.PopFront
+import Jp.Tie.Replace
 import Jp.Props.C04
 import Jp.Props.C11
 /-
   Jp.Tie.TransportBuf — C11 / C04 restated about the `PointerBuf` mutators regenerated from the current `src/pointer.rs`
-  (`from_tokens`, `push_front`, `push_back`, `pop_back`, `append`, `clear`; `pop_front` and `replace` are outside the
-  translated subset and stay with the hand-written model), DESIGN §16.
+  (`from_tokens` and all seven mutators), DESIGN §16.
 -/
 namespace Jp.Tie
 open Jp Jp.Spec
@@ -18,14 +19,14 @@ open Jp Jp.Spec
 def genBufStep (s : Bytes) : BufOp → Bytes × BufRet
   | .pushFront t => (Gen.PointerBuf.push_front s t, .unit)
   | .pushBack t => (Gen.PointerBuf.push_back s t, .unit)
-  | .popFront => let (s', r) := popFront s; (s', .popped r)
+  | .popFront => let (s', r) := Gen.PointerBuf.pop_front s; (s', .popped r)
   | .popBack => let (s', r) := Gen.PointerBuf.pop_back s; (s', .popped r)
   | .append other => (Gen.PointerBuf.append s other, .unit)
-  | .replace i t => let (s', r) := Jp.replace s i t; (s', .replaced r)
+  | .replace i t => let (s', r) := Gen.PointerBuf.replace s i t; (s', .replaced r)
   | .clear => (Gen.PointerBuf.clear s, .unit)
 
 theorem gen_buf_step_eq (s : Bytes) (op : BufOp) : genBufStep s op = bufStep s op := by
-  cases op <;> simp [genBufStep, bufStep, push_front_eq, push_back_eq, pop_back_eq, append_eq, clear_eq]
+  cases op <;> simp [genBufStep, bufStep, push_front_eq, push_back_eq, pop_back_eq, pop_front_eq, replace_eq, append_eq, clear_eq]
 
 /-- C11: every mutator step on the extracted definitions is the deque step on the token list, returns what the deque
     returns, and keeps the text valid -/
@@ -49,5 +50,26 @@ theorem gen_append_root (s : Bytes) : Gen.PointerBuf.append [] s = s ∧ Gen.Poi
 
 example : Gen.PointerBuf.pop_back [47, 97, 47, 126, 49] = ([47, 97], some [126, 49]) := by decide
 example : Gen.PointerBuf.push_front [47, 98] [97] = [47, 97, 47, 98] := by decide
+
+/-- a whole history run with the extracted mutators -/
+def runGenBuf (s : Bytes) : List BufOp → Bytes × List BufRet
+  | [] => (s, [])
+  | op :: ops =>
+    let (s', r) := genBufStep s op
+    let (s'', rs) := runGenBuf s' ops
+    (s'', r :: rs)
+
+theorem run_gen_buf_eq (s : Bytes) (ops : List BufOp) : runGenBuf s ops = C11.runBuf s ops := by
+  induction ops generalizing s with
+  | nil => rfl
+  | cons op ops ih => simp [runGenBuf, C11.runBuf, gen_buf_step_eq, ih]
+
+/-- C11, every finite history on the extracted mutators: the text is `from_tokens` of the deque's content and every call
+    returned what the deque returns -/
+theorem gen_history_refines (s : Bytes) (ops : List BufOp) (hs : validPtr s = true) (hops : ∀ op ∈ ops, C11.OpOK op) :
+    (runGenBuf s ops).1 = fromTokens (C11.runDeque (tokens s) ops).1 ∧
+    (runGenBuf s ops).2 = (C11.runDeque (tokens s) ops).2 := by
+  rw [run_gen_buf_eq]
+  exact ⟨C11.history_text s ops hs hops, (C11.history_refines s ops hs hops).2.1⟩
 
 end Jp.Tie
